@@ -134,6 +134,10 @@ def gen_doc(rng, reals, savable):
     nums = sorted(rng.sample(range(1, span + 1), min(n, span)))
     ids = [(i, rng.choice([0, 0, 0, 1, 2, 65535, rng.randint(0, 65535)])) for i in nums]
     max_id = (max(nums) if nums else 0) + rng.choice([0, 0, 0, 1, 5])
+    if nums and rng.random() < 0.12:
+        # a stale max_id below an object number (objects inserted directly into `objects`): in the domain since
+        # the repair 'save raises max_id'; before it the object was dropped / overwritten by the xref stream
+        max_id = rng.choice([0, max(0, max(nums) - 1), max(0, max(nums) - rng.randint(1, max(nums))), min(nums)])
     if not savable:
         r = rng.random()
         if r < 0.15 and ids:
@@ -237,6 +241,14 @@ def gen_cases(rng, tier):
     # the stream format's panic boundary (max_id + 2 overflows): cheap only for the stream format
     cases.append((L('save', 'stream', DOC(b'1.5', b'\xbb\xad', [], [((3, 0), I(7))], 4294967294)), {'kind': 'save-edge', 'nontrivial': True}))
     cases.append((L('save', 'table', DOC(b'1.5', b'\xbb\xad', [], [((3, 0), I(7))], 4294967295)), {'kind': 'save-edge', 'nontrivial': True}))
+    # (the cycles_fit boundary max_id = 2^32 - 4 / 2^32 - 3 is not run: the sectioning loop walks over every number up to max_id,
+    #  4 * 10^9 iterations on the crate and a unary counter in the extracted model)
+    # stale max_id (fixed finding C01-stale-max-id): object numbers above max_id, both formats, incl. the collision max_id + 1
+    for fmt in ('table', 'stream'):
+        for mx in (0, 1, 2):
+            cases.append((L('rt', fmt, DOC(b'1.5', b'\xbb\xad\xc0\xde', [(b'Root', REF(1, 0))],
+                                           [((1, 0), D([(b'Type', N(b'Catalog'))])), ((2, 0), I(7)), ((3, 1), ST([(b'Length', I(2))], b'ab'))], mx)),
+                          {'kind': 'rt-stale-max-id', 'nontrivial': True}))
     # container nesting around the reader's limit (100 levels): 101 and deeper is the known finding C01-deep-nesting
     for depth in (99, 100, 101, 102, 130) if tier == 'quick' else (1, 50, 99, 100, 101, 102, 103, 130, 200, 400):
         for kind in ('a', 'd', 'st', 'tr'):
